@@ -26,9 +26,16 @@ def run_group(ctx, driver, comp, trace, scs, family, remap):
     results = [None] * len(scs)
     for i, sc, r in pool.run_many(driver, scs, wall_timeout=12.0):
         results[i] = r
-    for r in results:
+    crashed = []
+    for sc, r in zip(scs, results):
         if r.get('status') == 'crash':
-            raise core.MachineryError('harness crash in %s: %s' % (family, r.get('error')))
+            if not core.from_code_under_test(r.get('error', '')):
+                raise core.MachineryError('harness crash in %s: %s' % (family, r.get('error')))
+            # one of the forms raises where the other forms work: an exception escaped from the code under test
+            r.setdefault('events', [])
+            crashed.append((sc, r))
+    for sc, r in crashed:
+        ctx.violation('C15', 'C15_UnexpectedException', 0, sc, r, family, driver, None, comp, trace)
     verdicts, st = tlc.validate_batch(comp, trace, [r['events'] for r in results])
     ctx.cov['states'] += st['states']
     ctx.cov['transitions'] += st['generated']
@@ -222,6 +229,11 @@ def run(ctx):
     owners = []
     for sc, r in zip(ml, results):
         if r.get('status') == 'crash':
+            if core.from_code_under_test(r.get('error', '')):
+                r.setdefault('events', [])
+                ctx.violation('C15', 'C15_UnexpectedException', 0, sc, r, 'multi_loop', 'harness.drivers.batcher', None,
+                              'batcher', 'BatcherTrace')
+                continue
             raise core.MachineryError('harness crash in multiloop: %s' % r.get('error'))
         for lp, tr in sorted(project_loops(sc, r).items()):
             traces.append(tr)
@@ -268,6 +280,9 @@ def replay(prop, path):
         hit = v[0].get('C15')
     else:
         r = pool.run_one(drv, sc)
+        if r.get('status') == 'crash' and core.from_code_under_test(r.get('error', '')):
+            print('VIOLATION property=C15 replay=%s clause=C15_UnexpectedException' % path)
+            return 1
         traces = [r['events']]
         if fam == 'multi_loop':
             traces = [tr for lp, tr in sorted(project_loops(sc, r).items())]
